@@ -21,7 +21,16 @@ struct LatchRun {
   int invoked; // decrements whose call has been invoked
   int maxN;
   char lastOp[64];
+  char cell[16]; // C10: one cell per decrementing operation, written before it, read after a wait returns
+  int nCells;
 };
+static void latchWrote(LatchRun& run, int k) {
+  raceW(&run.cell[k & 15], "before-count_down");
+}
+static void latchReadAll(LatchRun& run) {
+  for (int k = 0; k < run.nCells && k < 16; ++k)
+    raceR(&run.cell[k], "after-latch-wait");
+}
 static LatchRun* g_latch;
 
 static void latchHang(char* buf, size_t n) {
@@ -42,6 +51,7 @@ static void wlLatch() {
   struct Op {
     int kind; // 0 count_down(n), 1 arrive_and_wait
     int n;
+    int idx;
   };
   std::vector<Op> ops;
   int left = count;
@@ -52,10 +62,12 @@ static void wlLatch() {
     if (op.n > run.maxN)
       run.maxN = op.n;
     left -= op.n;
+    op.idx = (int)ops.size();
     ops.push_back(op);
   }
   sim_note("ops", (int64_t)ops.size());
   sim_note("maxn", run.maxN);
+  run.nCells = (int)ops.size();
   if (nWaiters == 0) {
     bool anyArrive = false;
     for (auto& o : ops)
@@ -79,17 +91,20 @@ static void wlLatch() {
         sim_fail("latch-early-return", "wait() returned with %d of %d decrements invoked", run.invoked, run.count);
       if (!latch.try_wait())
         sim_fail("latch-early-return", "wait() returned but try_wait() is false");
+      latchReadAll(run);
     });
   }
   for (int t = 0; t < nThreads; ++t) {
     for (const Op& op : perThread[(size_t)t]) {
       if (op.kind == 1) {
-        threads.emplace_back([&latch, &run]() {
+        threads.emplace_back([&latch, &run, idx = op.idx]() {
+          latchWrote(run, idx);
           run.invoked += 1;
           latch.arrive_and_wait();
           if (run.invoked < run.count)
             sim_fail("latch-early-return", "arrive_and_wait() returned with %d of %d decrements invoked",
                      run.invoked, run.count);
+          latchReadAll(run);
         });
       }
     }
@@ -97,6 +112,7 @@ static void wlLatch() {
       for (const Op& op : ops) {
         if (op.kind == 0) {
           sim_work(1);
+          latchWrote(run, op.idx);
           run.invoked += op.n;
           latch.count_down((uint32_t)op.n);
         }
@@ -120,6 +136,7 @@ static void wlCEvent() {
   sim_note("pollers", nPollers);
   dispenso::CompletionEvent ev;
   bool notified = false; // set just before notify() is invoked
+  char cell = 0;         // C10: written before notify(), read once completion was observed
   std::vector<std::thread> threads;
   for (int w = 0; w < nWaiters; ++w) {
     threads.emplace_back([&]() {
@@ -128,6 +145,7 @@ static void wlCEvent() {
         sim_fail("cevent-early-return", "wait() returned before notify() was invoked");
       if (!ev.completed())
         sim_fail("cevent-early-return", "wait() returned but completed() is false");
+      raceR(&cell, "after-event-wait");
     });
   }
   for (int p = 0; p < nPollers; ++p) {
@@ -136,6 +154,7 @@ static void wlCEvent() {
         if (ev.completed()) {
           if (!notified)
             sim_fail("cevent-early-return", "completed() true before notify() was invoked");
+          raceR(&cell, "after-event-completed");
           break;
         }
         sim_work(2);
@@ -145,6 +164,7 @@ static void wlCEvent() {
   threads.emplace_back([&]() {
     sim_work(delay);
     notified = true;
+    raceW(&cell, "before-notify");
     ev.notify();
   });
   for (auto& th : threads)
